@@ -96,6 +96,14 @@ Lemma legacy_refuted_all :
   oracle w_like (Legacy.run w_like) = false.
 Proof. repeat split; vm_compute; reflexivity. Qed.
 
+(* the pre-landed conversion fix, seen through Equals: Byte 200 = SByte -56, UInt64 max = Int64 -1 *)
+Lemma legacy_refuted_wrap :
+  Legacy.equals_wrapping (VInt Byte 200) (VInt SByte (-56)) = Some true /\
+  ref_op Equals [VInt Byte 200; VInt SByte (-56)] = Some (VBool false) /\
+  Legacy.equals_wrapping (VInt UInt64 18446744073709551615) (VInt Int64 (-1)) = Some true /\
+  ref_op Equals [VInt UInt64 18446744073709551615; VInt Int64 (-1)] = Some (VBool false).
+Proof. repeat split; vm_compute; reflexivity. Qed.
+
 (* known finding 1 *)
 Definition w_known1 : case := CLike [97; 95; 99] [97; 98; 99].
 Definition w_known1_filter : case :=
